@@ -113,6 +113,8 @@ def exclude_known(case):
             for leaf, kind, ui, slot in rd.walk_leaves(doc):
                 if kind == "k" and ui >= 0:
                     safe_units.add(ui)
+                elif kind == "k":
+                    doctitle = True      # an entry before the first unit belongs to the document
         n = 0
         for leaf, kind, ui, slot in rd.walk_leaves(doc):
             if ((slot == "title" and ui in safe_units) or (slot == "doctitle" and doctitle)) \
